@@ -5,6 +5,7 @@ import (
 	"context"
 	"encoding/binary"
 	"fmt"
+	"github.com/tetratelabs/wazero/experimental/sock"
 	"os"
 	"path/filepath"
 	"sort"
@@ -44,17 +45,20 @@ type WCase struct {
 	N            int    `json:"n"`
 	Ops          []WOp  `json:"ops"`
 	BaseMounts   int    `json:"base_mounts,omitempty"`        // every guest's FSConfig is derived from one common FSConfig with this many immutable in-memory mounts; the private directory is mounted after them
+	Sock         bool   `json:"sock,omitempty"`               // every instantiation uses one context carrying an experimental/sock configuration with a TCP listener on 127.0.0.1:0 (pre-opened after the directories)
 	SharedStdout bool   `json:"shared_stdout_file,omitempty"` // every guest gets the same *os.File as stdout (the embedder's file must survive a guest's fd_close(1) / module close)
 }
 
 type wguest struct {
-	mc     wazero.ModuleConfig
-	root   uint64 // descriptor of the private pre-opened directory (3 + number of common mounts)
-	closed bool
-	p      *wasiproxy.Proxy
-	dir    string
-	so, se bytes.Buffer
-	trace  []string
+	nonblock bool // the model of the listener's non-blocking flag as set by this guest
+	sock     bool
+	mc       wazero.ModuleConfig
+	root     uint64 // descriptor of the private pre-opened directory (3 + number of common mounts)
+	closed   bool
+	p        *wasiproxy.Proxy
+	dir      string
+	so, se   bytes.Buffer
+	trace    []string
 }
 
 func wpopulate(dir string) error {
@@ -92,12 +96,12 @@ func wTimeName(ns uint64) string {
 	return "other" // a time taken from the host clock when an entry was created or written
 }
 
-func newGuest(ctx context.Context, rt wazero.Runtime, base string, i int, shared *os.File, common wazero.FSConfig, ncommon int) (*wguest, error) {
-	g := &wguest{dir: base, root: 3 + uint64(ncommon)}
+func newGuest(ctx context.Context, rt wazero.Runtime, base string, i int, shared *os.File, common wazero.FSConfig, ncommon int, mcBase wazero.ModuleConfig, withSock bool) (*wguest, error) {
+	g := &wguest{dir: base, root: 3 + uint64(ncommon), sock: withSock}
 	if err := wpopulate(base); err != nil {
 		return nil, err
 	}
-	mc := wazero.NewModuleConfig().WithName("").WithArgs("guest", fmt.Sprint(i)).WithEnv("ID", fmt.Sprint(i)).
+	mc := mcBase.WithName("").WithArgs("guest", fmt.Sprint(i)).WithEnv("ID", fmt.Sprint(i)).
 		WithStdout(&g.so).WithStderr(&g.se).WithFSConfig(common.WithDirMount(base, "/"))
 	if shared != nil {
 		mc = mc.WithStdout(shared)
@@ -164,6 +168,9 @@ func (g *wguest) do(ctx context.Context, op WOp) string {
 	p := g.p
 	// the generator's descriptor numbers assume the private directory is descriptor 3
 	shift := func(v int64) int64 {
+		if v >= 4 && g.sock {
+			v++ // the pre-opened socket sits right after the private directory
+		}
 		if v >= 3 {
 			return v + int64(g.root) - 3
 		}
@@ -259,6 +266,26 @@ func (g *wguest) do(ctx context.Context, op WOp) string {
 			}
 		}
 		line(e, o, "len=%d name=%q", n, name)
+	case "socknb":
+		// the pre-opened listener: switch it to non-blocking (or back)
+		e, o = p.Call(ctx, "fd_fdstat_set_flags", g.root+1, uint64(op.A&1)*4)
+		if e == 0 && o.Kind == wz.KOK {
+			g.nonblock = op.A&1 == 1
+		}
+		line(e, o, "")
+	case "sockstat":
+		e, o = p.Call(ctx, "fd_fdstat_get", g.root+1, wRes)
+		ft, _ := p.Mem.ReadByte(wRes)
+		fl, _ := p.Mem.ReadUint16Le(wRes + 2)
+		line(e, o, "filetype=%d flags=%d", ft, fl)
+	case "sockaccept":
+		// nobody connects: a non-blocking listener answers EAGAIN; a blocking one is not asked
+		if !g.nonblock {
+			g.trace = append(g.trace, "sockaccept skipped (blocking)")
+			return ""
+		}
+		e, o = p.Call(ctx, "sock_accept", g.root+1, 0, wRes)
+		line(e, o, "fd=%d", g.u32(wRes))
 	case "clock":
 		e, o = p.Call(ctx, "clock_time_get", uint64(op.A), 0, wRes)
 		line(e, o, "t=%d", g.u64(wRes))
@@ -385,6 +412,12 @@ func runWasi(c *WCase, only int) (map[int][]string, string) {
 		defer f.Close()
 		shared = f
 	}
+	// every guest's module configuration is derived from one NewModuleConfig() value, and with
+	// Sock every instantiation uses the same context carrying one sock configuration
+	mcBase := wazero.NewModuleConfig()
+	if c.Sock {
+		ctx = sock.WithConfig(ctx, sock.NewConfig().WithTCPListener("127.0.0.1", 0))
+	}
 	// the configuration all guests' file systems are derived from (documented as immutable: deriving
 	// one guest's configuration from it must not be visible to the guests derived before or after)
 	common := wazero.NewFSConfig()
@@ -397,7 +430,7 @@ func runWasi(c *WCase, only int) (map[int][]string, string) {
 		}
 		d := wdir()
 		dirs = append(dirs, d)
-		g, err := newGuest(ctx, rt, d, i, shared, common, c.BaseMounts)
+		g, err := newGuest(ctx, rt, d, i, shared, common, c.BaseMounts, mcBase, c.Sock)
 		if err != nil {
 			return nil, "harness: " + err.Error()
 		}
@@ -519,9 +552,16 @@ func propWasi(t *rapid.T) {
 	c := &WCase{Engine: rapid.SampledFrom(wz.Engines).Draw(t, "engine"), N: rapid.IntRange(2, 3).Draw(t, "n")}
 	c.SharedStdout = rapid.IntRange(0, 2).Draw(t, "sharedstdout") == 0
 	c.BaseMounts = rapid.SampledFrom([]int{0, 0, 1, 2, 3, 3, 5}).Draw(t, "basemounts")
+	c.Sock = rapid.IntRange(0, 3).Draw(t, "sock") == 0
 	n := rapid.IntRange(3, 24).Draw(t, "nops")
 	for i := 0; i < n; i++ {
 		op := genWOp(t, c.N)
+		if c.Sock && rapid.IntRange(0, 3).Draw(t, "sockop") == 0 {
+			op = WOp{Inst: op.Inst, K: rapid.SampledFrom([]string{"socknb", "socknb", "sockstat", "sockaccept", "sockaccept"}).Draw(t, "sk")}
+			if op.K == "socknb" {
+				op.A = int64(rapid.SampledFrom([]int{1, 1, 1, 0}).Draw(t, "nb"))
+			}
+		}
 		if c.SharedStdout && op.A == 1 {
 			// the file behind fd 1 is shared by the embedder's choice: its offset and size depend on
 			// the other guests' writes; only writing, closing and fdstat are independent of them
@@ -545,13 +585,16 @@ func propWasi(t *rapid.T) {
 	if c.BaseMounts > 0 {
 		lbl = append(lbl, "wasi-fsconfig-derived-from-common-base")
 	}
+	if c.Sock {
+		lbl = append(lbl, "wasi-preopened-socket-per-guest")
+	}
 	for _, op := range c.Ops {
 		if op.K == "readdir" {
 			lbl = append(lbl, "wasi-readdir")
 			break
 		}
 	}
-	evid.Case(evid.Hash64("wasi", c.Engine, c.N, c.SharedStdout, c.BaseMounts, fmt.Sprint(c.Ops)), nt, lbl...)
+	evid.Case(evid.Hash64("wasi", c.Engine, c.N, c.SharedStdout, c.BaseMounts, c.Sock, fmt.Sprint(c.Ops)), nt, lbl...)
 	if nt {
 		evid.Sample("wasi-history", 2, c)
 	}
